@@ -88,7 +88,7 @@ type Run struct {
 
 var lazyBlacklist = []string{"unicode", "unicode/utf16", "runtime", "reflect", "syscall", "fmt", "crypto/", "regexp", "net", "internal/poll",
 	"internal/cpu", "math/rand", "encoding/json", "text/template", "html", "log", "testing", "golang.org/", "gopkg.in/", "github.com/ProtonMail",
-	"github.com/klauspost", "github.com/ulikunitz", "github.com/spf13", "dario.cat", "github.com/go-git", "github.com/Masterminds", "github.com/invopop",
+	"github.com/klauspost", "github.com/ulikunitz", "github.com/spf13", "dario.cat", "github.com/go-git", "github.com/invopop",
 	"github.com/goreleaser/chglog", "github.com/goreleaser/fileglob", "github.com/gobwas", "github.com/cavaliergopher", "internal/godebug", "internal/syscall",
 	"compress/", "hash/", "encoding/binary", "encoding/base64", "mime", "os/exec", "os/signal", "os/user", "context", "internal/testlog", "vendor/", "math/big", "math/bits", "embed", "flag"}
 
